@@ -97,6 +97,13 @@ class TagFlow:
             for gen in expr.generators:
                 for c in gen.ifs:
                     pass  # conditions do not flow into the value
+            if self.store_elem is not None:
+                # the result is a container of those elements
+                out = self.store_elem(out)
+                if isinstance(expr, ast.GeneratorExp):
+                    # ... as lazy as the first source it draws from
+                    src = self.tags(expr.generators[0].iter, state, local)
+                    out |= frozenset(x for x in src if x == "inf")
             return out
         if isinstance(expr, ast.IfExp):
             t = self.cfg._truth(expr.test)
